@@ -86,6 +86,17 @@ CHECKS = {
             "implementation compared with itself under respelling (no independent verdict needed: that is C08); parse receipts "
             "are excluded from the triple",
             "DESIGN.md §3 C09"),
+    "C10": ("exploration",
+            "envelope invariants over Hypothesis-generated argument records, against the harness's own list of existing schemas",
+            "Tens of thousands of generated calls of the four tools and the CLI (content kind x schema argument incl. planted, "
+            "broken, field-less, unknown, malformed, latest and frozen@sha256 references with HOME pointed at a generated "
+            "cache x profile x every flag x schema-file history inside the process). Every envelope must carry a status from "
+            "the three values; VALIDATED only for schema arguments the harness planted or knows as packaged, never when the "
+            "content violates the current schema, and the returned text must be VALIDATED again; unknown / unloadable "
+            "schema or parse failure => UNVALIDATED; INVALID => blocking profile + errors + schema name/version; valid flag "
+            "agrees.",
+            "the harness's own knowledge of which schemas exist and which generated contents violate the planted schemas",
+            "DESIGN.md §3 C10"),
 }
 
 NOT_YET = {
